@@ -30,4 +30,6 @@ def run(ctx):
     res = vlib.run_tlc(ctx, d, "MCLedger", "design_ledger_quick.cfg" if ctx.quick() else "design_ledger.cfg", timeout=3000)
     vlib.tlc_must_pass(ctx, res, "design run Ledger")
     ctx.coverage.update(states=res.distinct, transitions=res.generated)
-    cc.ledger_check(ctx, "C05", "traceledger_c05.cfg", mutate, "conservation")
+    lines, _ = cc.ledger_check(ctx, "C05", "traceledger_c05.cfg", mutate, "conservation")
+    # governance: the deposit pool against the open proposals (a C05 clause), life cycle and tally (beyond the listed properties)
+    cc.governance_check(ctx, lines)
